@@ -115,6 +115,15 @@ theorem tie_config_literals :
       [("InitExportingProcess", "dtls.Config"), ("createClientConfig", "tls.Config"), ("createClientConfig", "tls.Config"),
        ("createServerConfig", "tls.Config"), ("createServerConfig", "tls.Config"), ("startUDPServer", "dtls.Config")] := by decide
 
+/-- the literals set no field the model does not interpret: a session cache, a ticket-key or renegotiation
+    setting, a `GetConfigForClient` / `VerifyConnection` callback, `InsecureSkipVerify` ... would each change what
+    the stacks accept (e.g. a shared `ClientSessionCache` lets crypto/tls resume a session without re-verifying
+    the chain against this config's RootCAs) and would have to be modelled first -/
+theorem tie_config_fields_all_interpreted :
+    (configLits.flatMap fun l => l.fields.map (·.1)).all
+      (fun f => ["RootCAs", "ServerName", "MinVersion", "MaxVersion", "Certificates", "ClientAuth", "ClientCAs",
+                 "ExtendedMasterSecret"].contains f) = true := by decide
+
 /-- the config handed to `tls.Dial` / `tls.Listen` / `dtls.Dial` / `dtls.Listen` is the variable `config`, which
     on the TLS paths is the result of `createClientConfig(tlsConfig)` / `cp.createServerConfig()` -/
 theorem tie_config_flow :
